@@ -424,4 +424,29 @@ CHECKS["C20"] = dict(
     thorough=dict(workers=16, cases=3000, maxsize=60),
 )
 
+CHECKS["C14"] = dict(
+    harness="C14_ctl", sources=["props/C14_ctl.cc", "shim/shim.c", "pki/pki.cc"], variant="asan", libs=("xcm", "xcmctl"),
+    level="exploration", engine="rapidcheck session interleaver: raw AF_UNIX SEQPACKET clients + the real libxcmctl client (thread) against owners in the harness process, ASan/UBSan",
+    technique="protocol fuzzing with a differential oracle: generated well-formed and malformed control-interface "
+              "datagrams over 1-4 interleaved sessions; replies compared with in-process xcm_attr_get / "
+              "xcm_attr_get_all, key-secrecy scan of every reply byte, C01 ledger on the owner's data path, "
+              "control-file clean-up, C05 sleep monitor",
+    level_text="Owners: ux / tcp / btcp connections, a tls connection with by-value credentials, a tls accepted "
+               "connection whose peer certificate carries 3x3, 3x14 or 3x40 subject alternative names (so up to "
+               "~150 attributes), tls server sockets (one with 30 long tls.peer_names). Up to four sessions send "
+               "get-attr for the owner's real names and for tls.key / unknown / over-indexed / malformed names, "
+               "get-all (also as first request), datagrams of 1, 4, 63, 64, 68, size-1, size+1, 1000 and 65536 "
+               "bytes, full-size datagrams without any NUL (unterminated name) or with unknown type, disconnects "
+               "with replies outstanding, unread replies; libxcmctl sessions (xcmc_open / xcmc_attr_get / "
+               "xcmc_attr_get_all) run in a helper thread. Traffic on the owner's connection is interleaved and "
+               "ledger-checked. Sampled.",
+    level_note="Kernel statistics and traffic counters are compared by type only. A reply that cannot be matched "
+               "to a request (session saw a malformed datagram) is scanned for key material but not judged.",
+    rule=("Non-trivial = a session with a malformed datagram, or get-all as the first request of a session, or a "
+          "disconnect with replies outstanding, or an owner with at least 60 attributes or a value longer than 512 bytes."),
+    assumptions=["the owner application keeps calling its sockets (that is what serves the control interface)"],
+    quick=dict(workers=16, cases=60, maxsize=60),
+    thorough=dict(workers=16, cases=3000, maxsize=60),
+)
+
 NOT_APPLICABLE = []
